@@ -15,7 +15,8 @@ EXPLANATION = (
     "(prerequisites C07.2/4/5: complete and final-free); the sweep loop's exit test is exactly `change <= "
     "threshold`, with the change measure max|new-old| reset each sweep and the old value read before the store; "
     "the pruning flag reaches nothing but the 'no solution' raise. How close the floats are to the true value is "
-    "NOT decided (no static bound on value-iteration error is in reach).")
+    "NOT decided (no static bound on value-iteration error is in reach)."
+    ' Also: nothing computed by one solve is handed to the next (pre:C10.2), and no kernel funnels its transitions through a dictionary keyed by a part of the transition (0:keyed).')
 ASSUMPTIONS = [
     "input games are well-formed (validated before the solver runs: C09)",
     "reach probabilities lie in [0,1] (so constants <= 0 / >= 1 are identities of max / min)",
